@@ -467,6 +467,9 @@ class CExec:
         if tgt['kind'] == 'DeclRefExpr':
             name = tgt['referencedDecl']['name']
             ty = tgt.get('type', {}).get('qualType', '')
+            if isinstance(val, tuple) and val and val[0] == 'malloc':
+                st.env[name] = st.new_arr(name, length=val[1])
+                return st.env[name]
             if isinstance(val, z3.ExprRef) and ty == 'double':
                 val = toreal(val)
             st.env[name] = val
@@ -722,8 +725,9 @@ class CExec:
                     return memo[key]
                 vt = z3.simplify(ts[_pos] - _offs)
                 inr = z3.And(vt >= lo, vt < hi)
-                others = [z3.substitute(d, (v, vt)) == x for i, (d, x) in enumerate(zip(_idxs, ts)) if i != _pos]
-                cond = z3.And(inr, *others) if others else inr
+                # the other digits (loop-invariant, or written by a nested map loop) are compared by the re-executed body's own
+                # store closure below; here only the range of the digit driven by this loop's variable is needed
+                cond = inr
                 it = pre.fork()
                 it.env[var] = vt
                 it.pc += [vt >= lo, vt < hi]
